@@ -96,7 +96,7 @@ def run(ctx, res):
     jobs = min(16, os.cpu_count() or 4)
     try:
         with ProcessPoolExecutor(jobs) as ex:
-            touts = [o for part, _lines in ex.map(gwcheck.impl_chunk, gwcheck.chunks(twins, jobs * 2)) for o in part]
+            touts = [o for part in ex.map(gwcheck.impl_chunk, gwcheck.chunks(twins, jobs * 2)) for o in part]
     finally:
         shutil.rmtree(root, ignore_errors=True)
     for r, t, (outs, viol, _stats) in zip(paired, twins, touts):
